@@ -119,7 +119,8 @@ def gen_bool(rng, d):
 def gen_json(rng, d):
     r = rng.random()
     if d == 0 or r < 0.4:
-        return rng.choice([0, 1, -5, 3.5, -0.25, "abc", "x y", "a:b,c", True, False, None, 100000, 0.0, "0", "null", "[1]", "{}"])
+        return rng.choice([0, 1, -5, 3.5, -0.25, "abc", "x y", "a:b,c", True, False, None, 100000, 0.0, "0", "null", "[1]", "{}",
+                           2 ** 53 + 1, -(2 ** 53) - 1, 9007199254740993, 10 ** 20 + 7, 10 ** 400 + 1])
     if r < 0.7:
         return [gen_json(rng, d - 1) for _ in range(rng.randint(0, 3))]
     return dict(("k%d" % i if rng.random() < 0.7 else "key %d" % i, gen_json(rng, d - 1)) for i in range(rng.randint(0, 3)))
